@@ -4,6 +4,8 @@ package main
 // Unicode-heavy.  Semantics: documented behaviour on ASCII data.
 
 import (
+	"go/types"
+	"regexp"
 	"strings"
 
 	"golang.org/x/tools/go/ssa"
@@ -288,4 +290,77 @@ func init() {
 		n := a[0].(*Term)
 		return st.makeSlice(byteType, n, n), stNext
 	})
+}
+
+// regexp: patterns over literal characters and '.' (any character) only - the class for
+// which unanchored matching is a wildcard substring search; anything else needs concrete
+// operands (then Go's own regexp decides).
+func init() {
+	reg("regexp.Compile", func(st *State, th *Thread, fn *ssa.Function, a []Value) (Value, stepStatus) {
+		pt := fn.Signature.Results().At(0).Type().(*types.Pointer)
+		o := st.newObject(st.zero(pt.Elem()), pt.Elem(), "regexp")
+		st.kv["regexp:"+Ptr{Obj: o}.key()] = a[0]
+		if cs, ok := st.concreteString(a[0].(StrV)); ok {
+			if _, err := regexp.Compile(cs); err != nil {
+				return TupleV{Ptr{}, st.opaqueError("regexp: " + err.Error())}, stNext
+			}
+		}
+		return TupleV{Ptr{Obj: o}, IfaceV{}}, stNext
+	})
+	reg("(*regexp.Regexp).MatchString", simple(func(st *State, a []Value) Value {
+		tt := st.tt
+		pat := st.kv["regexp:"+a[0].(Ptr).key()].(StrV)
+		s := a[1].(StrV)
+		if cp, ok := st.concreteString(pat); ok {
+			if cs, ok := st.concreteString(s); ok {
+				return tt.Bool(regexp.MustCompile(cp).MatchString(cs))
+			}
+			for i := 0; i < len(cp); i++ {
+				if strings.IndexByte(`\+*?()|[]{}^$`, cp[i]) >= 0 {
+					panic(unsupported("regexp with metacharacters applied to a symbolic string"))
+				}
+			}
+		}
+		st.noteAssumption("regular expressions are restricted to literal characters and '.' (wildcard substring search); other regexp syntax is not modelled")
+		p, w := st.winOf(pat), st.winOf(s)
+		res := tt.False
+		for i := 0; i <= w.max; i++ {
+			// pattern occurs at position i
+			m := tt.Cmp(OpULe, tt.Bin(OpAdd, tt.Const(uint64(i), 64), p.ln), w.ln)
+			for k := 0; k < p.max; k++ {
+				in := tt.Cmp(OpULt, tt.Const(uint64(k), 64), p.ln)
+				pc := st.winByte(p, k)
+				var eq *Term
+				if i+k < w.max {
+					eq = tt.Or(tt.Eq(pc, tt.Const('.', 8)), tt.Eq(pc, st.winByte(w, i+k)))
+				} else {
+					eq = tt.False
+				}
+				m = tt.And(m, tt.Implies(in, eq))
+			}
+			res = tt.Or(res, m)
+		}
+		return res
+	}))
+	reg("strings.IndexFunc", simple(func(st *State, a []Value) Value {
+		// only used with unicode.IsSpace on ASCII data
+		f := a[1].(FuncV)
+		if f.Fn == nil || f.Fn.String() != "unicode.IsSpace" {
+			panic(unsupported("strings.IndexFunc with a predicate other than unicode.IsSpace"))
+		}
+		tt := st.tt
+		w := st.winOf(a[0])
+		st.assumeASCII(w, "strings.IndexFunc(unicode.IsSpace)")
+		res := tt.Const(^uint64(0), 64)
+		for i := w.max - 1; i >= 0; i-- {
+			b := st.winByte(w, i)
+			sp := tt.Eq(b, tt.Const(' ', 8))
+			for _, c := range []uint64{'\t', '\n', '\v', '\f', '\r'} {
+				sp = tt.Or(sp, tt.Eq(b, tt.Const(c, 8)))
+			}
+			hit := tt.And(tt.Cmp(OpULt, tt.Const(uint64(i), 64), w.ln), sp)
+			res = tt.Ite(hit, tt.Const(uint64(i), 64), res)
+		}
+		return res
+	}))
 }
